@@ -18,6 +18,8 @@ pub struct GenOpts {
     pub c_after_stmt_line: bool,
     /// comments before table fields / arguments on their own line, and after separators
     pub c_fields: bool,
+    /// line / block comment directly after a block opener (`then`, `do`, `else`, `repeat`, function header)
+    pub c_after_opener: bool,
     /// comments at arbitrary token gaps (exploratory)
     pub c_anywhere: bool,
     /// `-- stylua: ignore` directives
@@ -41,6 +43,7 @@ impl GenOpts {
             c_after_stmt_block: false,
             c_after_stmt_line: false,
             c_fields: false,
+            c_after_opener: false,
             c_anywhere: false,
             ignores: false,
             inner_newlines: true,
@@ -54,7 +57,7 @@ impl GenOpts {
         GenOpts { inner_newlines: false, clean: true, flat: true, ..GenOpts::plain() }
     }
     pub fn stmt_comments() -> GenOpts {
-        GenOpts { c_before_stmt: true, c_after_stmt_block: true, c_after_stmt_line: true, ..GenOpts::plain() }
+        GenOpts { c_before_stmt: true, c_after_stmt_block: true, c_after_stmt_line: true, c_after_opener: true, ..GenOpts::plain() }
     }
 }
 
@@ -83,6 +86,9 @@ struct G<'a, 'b> {
     messy: bool,
     /// output length right after a type assertion that is not wrapped in parentheses
     bare_assertion_end: usize,
+    /// the block opener just written ends with a Luau return type: a line comment after it is swallowed
+    /// (known finding KF-return-type-comment), so no opener comment is generated there
+    opener_has_return_type: bool,
 }
 
 const SHORT_NAMES: [&str; 10] = ["a", "b", "c", "x", "y", "foo", "bar", "baz", "self", "t"];
@@ -114,6 +120,7 @@ pub fn generate(t: &mut Tape, syn: Syntax, opts: GenOpts) -> Generated {
         prev_terminated: true,
         messy: false,
         bare_assertion_end: usize::MAX,
+        opener_has_return_type: false,
     };
     if g.t.chance(6) {
         g.out.push_str("#!/usr/bin/env lua\n");
@@ -433,7 +440,19 @@ impl<'a, 'b> G<'a, 'b> {
     fn nested_block(&mut self) {
         // body of a block statement; cursor is after the opener token
         self.indent += 1;
-        let n = if self.budget <= 0 { 0 } else { self.t.pick(4) };
+        let mut n = if self.budget <= 0 { 0 } else { self.t.pick(4) };
+        let blocked = self.opener_has_return_type;
+        self.opener_has_return_type = false;
+        let _ = blocked;
+        if self.o.c_after_opener && self.t.chance(50) {
+            let c = if self.t.chance(100) { self.block_comment() } else { self.line_comment() };
+            self.push(" ");
+            self.push(&c);
+            self.labels.insert("c:after-opener");
+            if n == 0 {
+                n = 1;
+            }
+        }
         if n == 0 {
             if self.t.chance(128) {
                 self.push("\n");
@@ -897,10 +916,12 @@ impl<'a, 'b> G<'a, 'b> {
             }
         }
         self.push(")");
+        self.opener_has_return_type = false;
         if self.luau() && self.t.chance(60) {
             self.labels.insert("return-type");
             self.push(": ");
             self.type_expr(2);
+            self.opener_has_return_type = true;
         }
         self.in_vararg = vararg;
     }
@@ -1007,7 +1028,14 @@ impl<'a, 'b> G<'a, 'b> {
                         self.push("|");
                         self.sp();
                     }
-                    self.type_atom(depth - 1);
+                    if i + 1 == n && self.t.chance(40) {
+                        // a bare function type as the last member: everything after `->` belongs to its return type
+                        self.labels.insert("type-union-trailing-callback");
+                        self.push("(x: number) -> ");
+                        self.type_atom(depth - 1);
+                    } else {
+                        self.type_atom(depth - 1);
+                    }
                 }
             }
             4 => {
@@ -1016,6 +1044,10 @@ impl<'a, 'b> G<'a, 'b> {
                 self.sp();
                 self.push("&");
                 self.sp();
+                if self.t.chance(60) {
+                    self.labels.insert("type-intersection-trailing-callback");
+                    self.push("(x: number) -> ");
+                }
                 self.type_atom(depth - 1);
             }
             5 | 6 => {
@@ -1108,7 +1140,7 @@ impl<'a, 'b> G<'a, 'b> {
     // -------------------------------------------------------------------- expressions
 
     fn string_lit(&mut self) {
-        const STRS: [&str; 16] = [
+        const STRS: [&str; 18] = [
             "\"str\"",
             "'single'",
             "\"it's\"",
@@ -1125,6 +1157,8 @@ impl<'a, 'b> G<'a, 'b> {
             "\"a somewhat longer string literal used to force wrapping\"",
             "'\\\\'",
             "\"\\u{48}\\u{49}\"",
+            "'say \"hi\" it\\'s'",
+            "\"it's 'q' \\\"x\\\"\"",
         ];
         let mut i = self.t.pick(STRS.len());
         if self.o.flat && i == 12 {
